@@ -1,7 +1,6 @@
 package main
 
 import (
-	"strings"
 
 	"golang.org/x/tools/go/ssa"
 )
@@ -26,8 +25,11 @@ type idLoop struct {
 
 var idLoops = []idLoop{
 	{pkgAge, "", "Decrypt", "invoke (filippo.io/age.Identity).Unwrap"},
-	{pkgAge, "", "multiUnwrap", "dynamic"},
-	{pkgSSH, "", "multiUnwrap", "dynamic"},
+	// multiUnwrap is spliced into the Unwrap methods by the normal form
+	{pkgAge, "X25519Identity", "Unwrap", "(*" + pkgAge + ".X25519Identity).unwrap$bound"},
+	{pkgAge, "ScryptIdentity", "Unwrap", "(*" + pkgAge + ".ScryptIdentity).unwrap$bound"},
+	{pkgSSH, "RSAIdentity", "Unwrap", "(*" + pkgSSH + ".RSAIdentity).unwrap$bound"},
+	{pkgSSH, "Ed25519Identity", "Unwrap", "(*" + pkgSSH + ".Ed25519Identity).unwrap$bound"},
 	{pkgCmdAge, "EncryptedIdentity", "Unwrap", "invoke (filippo.io/age.Identity).Unwrap"},
 }
 
@@ -88,14 +90,14 @@ func runC01(p *Program, r *Result) {
 		}
 		if ok {
 			outer := loopOver(enc, func(v ssa.Value) bool { return v == enc.Params[1] })
-			inner := loopOver(enc, func(v ssa.Value) bool {
-				ex, isEx := v.(*ssa.Extract)
-				if !isEx || ex.Index != 0 {
-					return false
+			// the stanza loop: the range loop around the append other than the recipient loop
+			// (what it ranges over is part of the appended value, compared with the table above)
+			var inner []*RangeLoop
+			for _, l := range rangeLoops(enc) {
+				if len(outer) == 1 && l.Header != outer[0].Header && l.inLoop(in[0].Store.Block()) {
+					inner = append(inner, l)
 				}
-				c, isC := ex.Tuple.(*ssa.Call)
-				return isC && strings.HasSuffix(calleeName(&c.Call), ".wrapWithLabels")
-			})
+			}
 			if len(outer) != 1 || len(inner) != 1 {
 				ok, detail = false, "recipient loop / stanza loop not recognised as full-range loops"
 			} else if !inner[0].inLoop(in[0].Store.Block()) || !outer[0].inLoop(inner[0].Header) {
@@ -151,7 +153,7 @@ func runC01(p *Program, r *Result) {
 	}
 
 	// ---- R01.3
-	r.Rule("R01.3", "a loop over identities/stanzas continues only on the incorrect-identity sentinel", 4)
+	r.Rule("R01.3", "a loop over identities/stanzas continues only on the incorrect-identity sentinel", 6)
 	for _, il := range idLoops {
 		fn := r.anchor(il.pkg, il.recv, il.fn)
 		if fn == nil {
